@@ -192,12 +192,20 @@ fn cmd_replay(args: &Args) -> i32 {
                 return 2;
             };
             let cfg = w1_cfg(&a, prop);
-            match runner::rerun_group(&cfg, gid) {
+            // a failure that depends on the allocator's placement may need a few fresh processes
+            // (each has its own address-space layout): up to 6 attempts, the first hit counts
+            let mut res = runner::rerun_group(&cfg, gid);
+            let mut attempts = 1;
+            while attempts < 6 && matches!(&res, Ok(found) if !found.iter().any(|x| x.run == f.run && x.violation.signature() == f.signature)) {
+                res = runner::rerun_group(&cfg, gid);
+                attempts += 1;
+            }
+            match res {
                 Ok(found) => {
                     let hit = found.iter().find(|x| x.run == f.run && x.violation.signature() == f.signature).or_else(|| found.iter().find(|x| x.run == f.run)).or(found.first());
                     match hit {
                         Some(x) => {
-                            println!("REPRODUCED property={} signature={} run={} detail={}", f.property, x.violation.signature(), x.run, x.violation.detail);
+                            println!("REPRODUCED property={} signature={} run={} attempt={} detail={}", f.property, x.violation.signature(), x.run, attempts, x.violation.detail);
                             println!("{}", if x.violation.signature() == f.signature && x.run == f.run { "SAME-SIGNATURE".to_string() } else { format!("DIFFERENT-SIGNATURE recorded={} run {}", f.signature, f.run) });
                             1
                         }
